@@ -11,7 +11,7 @@ from .core import HarnessError
 
 TIERS = {
     # per property: (number of runs, wall budget for the search phase in seconds)
-    "quick": {"C03": (260, 150), "C12": (220, 150), "C20": (110, 150)},
+    "quick": {"C03": (900, 150), "C12": (600, 150), "C20": (160, 150)},
     "thorough": {"C03": (6000, 1500), "C12": (5000, 1500), "C20": (2500, 1500)},
 }
 
